@@ -193,6 +193,10 @@ class ManifestContext:
             period.start = start
             self.periods.append(period)
             start += period.duration
+        # create_period() leaves the duration of the last Period's source
+        # stream in mediaDuration. MPD@mediaPresentationDuration of a
+        # multi-period presentation is the sum of its Period durations
+        self.mediaDuration = start
 
     def create_all_live_periods(self,
                                 multi_period: models.MultiPeriodStream) -> None:
